@@ -26,7 +26,7 @@ HELPERS = [(0, 'bswap8', 0, 1, 8, 0), (1, 'bswap16', 0, 2, 16, 1), (2, 'bswap24'
            (36, 'sign_extend_u16_u8', 2, 1, 16, 0), (37, 'sign_extend_u32_u8', 2, 1, 32, 0), (38, 'sign_extend_u64_u8', 2, 1, 64, 0),
            (39, 'sign_extend_u32_u16', 2, 2, 32, 0), (40, 'sign_extend_u64_u16', 2, 2, 64, 0), (41, 'sign_extend_u64_u32', 2, 4, 64, 0),
            (42, 'sign_extend_s32_s8', 2, 1, 32, 0), (43, 'sign_extend_s64_s16', 2, 2, 64, 0), (44, 'sign_extend_s64_s32', 2, 4, 64, 0)]
-OPN = {'add': 4, 'sub': 5, 'mul': 6, 'div': 7, 'mod': 8, 'preinc': 14, 'postinc': 15, 'predec': 16, 'postdec': 17}
+OPN = {'add': 4, 'sub': 5, 'mul': 6, 'div': 7, 'mod': 8, 'and': 9, 'or': 10, 'xor': 11, 'shl': 12, 'shr': 13, 'preinc': 14, 'postinc': 15, 'predec': 16, 'postdec': 17}
 
 
 def Q(name, harness, defs, unwind=12, timeout=90, desc='', bounds='', **kw):
@@ -48,14 +48,34 @@ def queries(tier):
             bnd = 'all %d-bit values v and operands d' % bits
             qs.append(Q(w + '_ops', 'h_wrap.c', defs, unwind=10, bounds=bnd,
                         desc=w + ': ctor/convert, =, store/load, store_raw/load_raw, += -= ' + ('' if flt else '&= |= ^= <<= >>= ') + '++x x++ --x x--, copy-assign (operator symbolic): object bytes and returned value vs native'))
-            if not flt:
-                d3 = dict(defs); d3['INTOPS'] = 1
-                qs.append(Q(w + '_intops', 'h_wrap.c', d3, unwind=10, bounds='all %d-bit values v, all int operands' % bits,
-                            desc=w + ': += -= &= |= ^= <<= >>= with an int right-hand side (R != T, operator symbolic): object bytes and returned value vs native'))
             for k in (('add', 'sub', 'mul', 'div', 'preinc', 'postinc', 'predec', 'postdec') if flt else ('mul', 'div', 'mod')):
                 d2 = dict(defs); d2['OP'] = OPN[k]
                 if tier == 'quick' and bits == 64 and (flt or (k == 'mul' and sg)):
                     continue  # double arithmetic and the int64 multiply-overflow predicate take 5-45 s each: thorough tier
                 qs.append(Q('%s_%s' % (w, k), 'h_wrap.c', d2, unwind=10, bounds=bnd, cost=600 if bits == 64 else 100, backend='z3',
                             desc='%s operator %s: object bytes and returned value vs native, both operands symbolic' % (w, k)))
+    # compound operators with an operand type R different from the exposed type T (h_mixed.c)
+    RTYPES = {'i32': (32, 1, 0), 'u32': (32, 0, 0), 'i64': (64, 1, 0), 'u64': (64, 0, 0), 'f32': (32, 1, 1), 'f64': (64, 1, 1)}
+    for pre, big in (('le', 0), ('be', 1), ('re', 1)):
+        for nm, bits, sg, flt in BASE:
+            w = '%s_%s' % (pre, nm)
+            if flt:
+                rts = ['i32', 'u32', 'i64', 'u64', 'f64' if bits == 32 else 'f32']
+                qrts = ['i32', 'u32']
+            else:
+                own = ('i' if sg else 'u') + str(bits)
+                rts = [r for r in ('i32', 'u32', 'i64', 'u64') if r != own]
+                qrts = ['i32', 'u32'] if bits == 64 else [('u64' if sg else 'i64')]
+            if tier == 'quick' and pre != 'be':
+                continue  # quick: one byte order (the operator bodies are shared by le_/be_/re_; byte order itself is covered by the R = T queries)
+            for r in (qrts if tier == 'quick' else rts):
+                rb, rs, rf = RTYPES[r]
+                defs = {'W': w, 'BITS': bits, 'SIGNED': sg, 'FLT': flt, 'BIG': big, 'RB': rb, 'RS': rs, 'RF': rf}
+                bnd = 'all %d-bit values v, all %d-bit operands d of type %s' % (bits, rb, r)
+                cheap = ('add', 'sub') if flt else ('add', 'sub', 'and', 'or', 'xor', 'shl', 'shr')
+                costly = ('mul', 'div') if flt else ('mul', 'div', 'mod')
+                for k in cheap + (costly if pre == 'be' else ()):
+                    d2 = dict(defs); d2['OP'] = OPN[k]
+                    qs.append(Q('%s_x_%s_%s' % (w, r, k), 'h_mixed.c', d2, unwind=10, bounds=bnd, backend='z3', cost=300 if k in costly else 50,
+                                desc='%s %s= (%s)d: object bytes and returned value vs the native usual-arithmetic-conversion result, both operands symbolic' % (w, k, r)))
     return qs
